@@ -180,4 +180,138 @@ func live(r *hlib.Run, n int) {
 	}
 }
 
-func relive(r *hlib.Run, n int) {}
+// ---------- relive: connect, the connection dies, reconnect the other way round, late second reap ----------
+
+// the same value at both ends of one connection, different for different connections
+func connID(c *quic.Conn) string {
+	if c == nil {
+		return ""
+	}
+	st := c.ConnectionState().TLS
+	b, err := st.ExportKeyingMaterial("verif c41 connection identity", nil, 16)
+	if err != nil {
+		return ""
+	}
+	return fmt.Sprintf("%x", b)
+}
+
+func eventually(d time.Duration, cond func() bool) bool {
+	deadline := time.Now().Add(d)
+	for {
+		if cond() {
+			return true
+		}
+		if time.Now().After(deadline) {
+			return false
+		}
+		time.Sleep(10 * time.Millisecond)
+	}
+}
+
+// one trial. A dials B (both cache c1); c1 dies and both sides reap it; B dials A (both cache c2); then reapPeer
+// runs a SECOND time for c1 at A — what the periodic reaper() does with a dead candidate that it collected just before
+// the connection-close goroutine reaped it. Reported: the two caches once things have settled, and a further dial.
+func reliveTrial(cert tls.Certificate) (string, string) {
+	a, err := newLivePeer(cert)
+	if err != nil {
+		return "setup", "peer"
+	}
+	defer a.close()
+	bp, err := newLivePeer(cert)
+	if err != nil {
+		return "setup", "peer"
+	}
+	defer bp.close()
+	nodeOf := func(x *livePeer) *protocol.Node { return &protocol.Node{Address: x.addr, Id: 1} }
+	ids := map[*quic.Conn]string{}
+	cached := func(x, other *livePeer) *quic.Conn {
+		c := x.t.VerifCachedQuic(nodeOf(other))
+		if c != nil && ids[c] == "" {
+			ids[c] = connID(c)
+		}
+		return c
+	}
+	live := func(c *quic.Conn) bool { return c != nil && c.Context().Err() == nil }
+	dial := func(from, to *livePeer) string {
+		ctx, cancel := context.WithTimeout(context.Background(), 10*time.Second)
+		defer cancel()
+		c, err := from.t.DialStream(ctx, nodeOf(to), protocol.Stream_RPC)
+		if err == nil {
+			c.Close()
+		}
+		return errKind(err)
+	}
+	shared := func() bool {
+		ca, cb := cached(a, bp), cached(bp, a)
+		return live(ca) && live(cb) && ids[ca] != "" && ids[ca] == ids[cb]
+	}
+	// 1. A dials B: both cache c1
+	if k := dial(a, bp); k != "ok" {
+		return "setup", "dial1-" + k
+	}
+	if !eventually(5*time.Second, shared) {
+		return "setup", "c1-not-shared"
+	}
+	c1A := cached(a, bp)
+	// 2. c1 dies (B's end goes away): both sides notice and reap it
+	cached(bp, a).CloseWithError(0, "verif: connection lost")
+	if !eventually(10*time.Second, func() bool { return cached(a, bp) == nil && cached(bp, a) == nil }) {
+		return "setup", "c1-not-reaped"
+	}
+	// 3. B dials A: both cache the replacement c2
+	if k := dial(bp, a); k != "ok" {
+		return "setup", "dial2-" + k
+	}
+	if !eventually(5*time.Second, shared) || cached(a, bp) == c1A {
+		return "setup", "c2-not-shared"
+	}
+	// 4. the late, second reap of the long dead c1 at A
+	a.t.VerifReapPeer(c1A, nodeOf(bp))
+	// 5. let the consequences happen (the other side's close-watcher), then look at the caches
+	agreed := func() bool {
+		ca, cb := cached(a, bp), cached(bp, a)
+		if !live(ca) && !live(cb) {
+			return ca == nil && cb == nil
+		}
+		return shared()
+	}
+	settled := eventually(3*time.Second, agreed)
+	describe := func(c *quic.Conn) string {
+		switch {
+		case c == nil:
+			return "-"
+		case live(c):
+			return "open"
+		}
+		return "closed"
+	}
+	ca, cb := cached(a, bp), cached(bp, a)
+	same := "n/a"
+	if ca != nil && cb != nil {
+		same = "no"
+		if ids[ca] != "" && ids[ca] == ids[cb] {
+			same = "yes"
+		}
+	}
+	detail := fmt.Sprintf("cacheA=%s;cacheB=%s;same=%s;redial=%s", describe(ca), describe(cb), same, dial(a, bp))
+	if settled {
+		return "converged", detail
+	}
+	return "diverged", detail
+}
+
+// relive: reap -> redial -> late reap between two real overlay.QUIC transports over loopback UDP.
+func relive(r *hlib.Run, n int) {
+	cert := selfSigned()
+	for i := 0; i < n; i++ {
+		kind, detail := reliveTrial(cert)
+		r.Raw("# case relive")
+		rhs := "late-reap:" + kind + ";" + detail
+		if kind == "setup" {
+			rhs = "setup:" + detail
+		}
+		r.Emit(fmt.Sprintf("relive %d", i), rhs)
+		r.Case("")
+		r.Count("relive:" + kind)
+	}
+}
